@@ -239,7 +239,7 @@ def cmp(op, a, b):
     if op in ("Eq", "NotEq", "Is", "IsNot"):
         # a freshly built tuple / named tuple / list / dict is never None
         for x, y in ((a, b), (b, a)):
-            if x == NONE and y[0] in ("nt", "tuple", "list", "dict", "new"):
+            if x == NONE and (y[0] in ("nt", "tuple", "list", "dict", "new") or is_num(y)):
                 return FALSE if op in ("Eq", "Is") else TRUE
     if op in ("In", "NotIn") and a[0] == "const" and b[0] in ("tuple", "list") and all(x[0] == "const" for x in b[1]):
         # membership of a constant in a literal collection of constants
@@ -1136,7 +1136,7 @@ class Evaluator:
             if a[0] in ("tuple", "list") and b[0] == a[0]:
                 return (a[0], a[1] + b[1])
             def _strish(x):
-                return x[0] in ("const", "fstr", "tuple", "list") or (x[0] == "op" and x[1] == "concat")
+                return x[0] in ("const", "fstr", "tuple", "list") or (x[0] == "op" and x[1] in ("concat", "repeat"))
             if _strish(a) or _strish(b):
                 parts = (a[2] if (a[0] == "op" and a[1] == "concat") else (a,)) + (b[2] if (b[0] == "op" and b[1] == "concat") else (b,))
                 return ("op", "concat", tuple(parts))
@@ -1234,6 +1234,8 @@ class Evaluator:
                 continue
             kws.append((k.arg if k.arg is not None else "**", v))
         kws.sort(key=lambda kv: kv[0])
+        if f == ("sym", "dict") and not args and kws and all(k != "**" for k, _v in kws) and "dict" not in env:
+            return ("dict", tuple((("const", k), v) for k, v in kws))          # dict(a=x, b=y) is {"a": x, "b": y}
         if f[0] == "attr" and f[2] == "get" and f[1][0] == "dict" and 1 <= len(args) <= 2 and not kws and f[1][1]:
             hit = self._table_lookup(f[1], args[0], args[1] if len(args) == 2 else NONE)
             if hit is not None:
